@@ -21,6 +21,7 @@ import (
 	"google.golang.org/grpc/credentials"
 	"google.golang.org/grpc/credentials/insecure"
 	"google.golang.org/grpc/encoding"
+	grpcgzip "google.golang.org/grpc/encoding/gzip"
 	"google.golang.org/grpc/metadata"
 	"google.golang.org/grpc/status"
 	"google.golang.org/protobuf/proto"
@@ -376,8 +377,8 @@ func c16GRPC(c *ctx) {
 			method, wantBackend = "/pkg.Delta/Secure", "delta"
 		}
 		conn := cc
-		if route == "delta" {
-			conn = ccs // TLS backends are reached through the grpcs listener
+		if route == "delta" && r.Intn(3) > 0 {
+			conn = ccs // the TLS backend is reached through the grpcs listener and, one time in three, through the plain one
 		}
 		scripts.Store(id, sc)
 		defer scripts.Delete(id)
@@ -392,7 +393,13 @@ func c16GRPC(c *ctx) {
 		for n, b := range backs {
 			callsBefore[n] = b.calls.Load()
 		}
-		st, err := conn.NewStream(ctx, &grpc.StreamDesc{ServerStreams: true, ClientStreams: true}, method, grpc.ForceCodec(rawCodec{}))
+		copts := []grpc.CallOption{grpc.ForceCodec(rawCodec{})}
+		if r.Intn(8) == 0 {
+			// a caller that compresses its messages (and accepts compressed answers): compression is negotiated hop by hop
+			copts = append(copts, grpc.UseCompressor(grpcgzip.Name))
+			c.R.Count("calls_with_gzip_compression", 1)
+		}
+		st, err := conn.NewStream(ctx, &grpc.StreamDesc{ServerStreams: true, ClientStreams: true}, method, copts...)
 		c.R.Eval(1)
 		desc := fmt.Sprintf("%s %s dsthost=%q send=%d scripted-replies=%d code=%s", kind, method, dsthost, len(send), len(sc.Msgs), sc.Code)
 		in := map[string]any{"call": desc}
@@ -640,5 +647,23 @@ func c16GRPC(c *ctx) {
 			time.Sleep(80 * time.Millisecond)
 		}
 		c.R.Nontrivial(fmt.Sprintf("short-absence-%d", h))
+	}
+	// phase 5: the backend leaves for good: every connection fabio ever opened to it (also those of simultaneous first
+	// calls) must be dropped
+	g := backs["gamma"]
+	reg(false)
+	if err := rg.barrier(); err != nil {
+		c.R.Inconcl("barrier: %v", err)
+		return
+	}
+	t0 := time.Now()
+	bound := 3*5*time.Second + time.Second + 3*time.Second
+	for time.Since(t0) < bound && g.ln.open.Load() > 0 {
+		time.Sleep(100 * time.Millisecond)
+	}
+	c.R.Eval(1)
+	c.R.SetCounter("backend_gamma_connections_accepted_in_all", g.ln.accepted.Load())
+	if n := g.ln.open.Load(); n > 0 {
+		c.R.Violate("c16:connection-not-dropped:after-simultaneous-first-calls", fmt.Sprintf("backend gamma left the table %s ago; fabio opened %d connections to it in all and still holds %d", time.Since(t0).Round(time.Second), g.ln.accepted.Load(), n), nil)
 	}
 }
